@@ -5,6 +5,7 @@
 package main
 
 import (
+	"errors"
 	"encoding/json"
 	"fmt"
 	"math/rand"
@@ -65,6 +66,16 @@ func newProto(n *onet.TreeNodeInstance) (onet.ProtocolInstance, error) {
 
 func (p *proto) Start() error { return nil }
 
+var shutdownErr bool
+
+// Shutdown is called when the instance is closed; a protocol may report an error from it
+func (p *proto) Shutdown() error {
+	if shutdownErr && p.onX {
+		return errors.New("verif: shutdown reports an error")
+	}
+	return nil
+}
+
 func (p *proto) ProcessProtocolMsg(msg *onet.ProtocolMsg) {
 	if os.Getenv("VERIF_DEBUG") != "" {
 		fmt.Fprintln(os.Stderr, "    accept on", p.ServerIdentity().Address, time.Now().Format("05.000"))
@@ -110,6 +121,8 @@ type input struct {
 	Drain  bool   `json:"drain"`
 	Random int    `json:"random,omitempty"` // number of random steps after Steps
 	Seed   int64  `json:"seed,omitempty"`
+	// the protocol's Shutdown reports an error (the instance is finished all the same)
+	ShutdownErr bool `json:"shutdown_err,omitempty"`
 }
 
 type tokKey struct{ tree, run int }
@@ -763,6 +776,7 @@ func run(raw json.RawMessage) lib.Case {
 	if err := json.Unmarshal(raw, &in); err != nil {
 		panic(err)
 	}
+	shutdownErr = in.ShutdownErr
 	cnt = &counters{created: map[onet.RoundID]int{}, accepted: map[onet.RoundID]int{}, handled: map[onet.RoundID]int{}, insts: map[onet.RoundID]*proto{}}
 	lt := onet.NewLocalTest(suite)
 	lt.Check = onet.CheckNone
@@ -841,6 +855,9 @@ func run(raw json.RawMessage) lib.Case {
 	obs := map[string]interface{}{"actions": strings.Join(w.acts, "; "), "answers": strings.Join(w.answers, " "),
 		"last": w.snaps[len(w.snaps)-1]}
 	class := in.Name
+	if in.ShutdownErr {
+		class += "+shutdownerr"
+	}
 	if w.f27 {
 		class += "+f27window"
 	}
@@ -852,7 +869,7 @@ func run(raw json.RawMessage) lib.Case {
 		// known finding C11-N2: a tree stored by a response that nothing uses afterwards is never released
 		class += "+latearrival"
 	}
-	return lib.Case{Coq: coq, Class: class, Input: input{Name: in.Name, Steps: executed, Drain: in.Drain}, Obs: obs,
+	return lib.Case{Coq: coq, Class: class, Input: input{Name: in.Name, Steps: executed, Drain: in.Drain, ShutdownErr: in.ShutdownErr}, Obs: obs,
 		Nontrivial: len(w.acts) > 3, Key: strings.Join(w.acts, ";")}
 }
 
@@ -1077,10 +1094,10 @@ func generate(rng *rand.Rand, tier string) []interface{} {
 					j++
 				}
 			}
-			ins = append(ins, input{Name: a.Name + "+" + b.Name, Drain: true, Steps: steps})
+			ins = append(ins, input{Name: a.Name + "+" + b.Name, Drain: true, Steps: steps, ShutdownErr: rng.Intn(3) == 0})
 		}
 		for n := 0; n < 12; n++ {
-			ins = append(ins, input{Name: "random-walk", Drain: true, Random: 10 + rng.Intn(25), Seed: rng.Int63()})
+			ins = append(ins, input{Name: "random-walk", Drain: true, Random: 10 + rng.Intn(25), Seed: rng.Int63(), ShutdownErr: rng.Intn(3) == 0})
 		}
 	}
 	return ins
@@ -1089,6 +1106,11 @@ func generate(rng *rand.Rand, tier string) []interface{} {
 func corpus() []interface{} {
 	var ins []interface{}
 	for _, tpl := range templates(0) {
+		ins = append(ins, tpl)
+	}
+	// the same scenarios with a protocol whose Shutdown reports an error
+	for _, tpl := range templates(1) {
+		tpl.ShutdownErr = true
 		ins = append(ins, tpl)
 	}
 	return ins
